@@ -109,10 +109,16 @@ CLASSES: dict[str, tuple[str, list]] = {
     'P1': ('peer', [('filename', PATHS), ('place', None)]),          # place = 100 + uid
     'P2': ('peer', [('description', ('da', 'db')), ('upload_slots', (0, 1, 2)), ('queue_size', (0, 1))]),
     'P3': ('peer', [('ticket', (7001, 7002, 7003)), ('directory', DIRS)]),
+    # classes whose library handlers answer the sender (PrivateChatMessage: the ack goes through
+    # send_server_messages = gather, the handler is really suspended for several loop iterations)
+    'S5': ('server', [('username', USERS), ('message', ('hi', 'yo'))]),   # chat_id = 500 + uid
+    'P4': ('peer', [('filename', ('nf/a.mp3', 'nf/b.mp3'))]),              # PeerTransferQueue for a file not shared
+    'P5': ('peer', []),                                                    # PeerUserInfoRequest
 }
 CLASS_NAMES = {'S1': 'GetUserStatus.Response', 'S2': 'GetUserStats.Response', 'S3': 'GetPeerAddress.Response',
                'S4': 'CheckPrivileges.Response', 'P1': 'PeerPlaceInQueueReply.Request',
-               'P2': 'PeerUserInfoReply.Request', 'P3': 'PeerDirectoryContentsReply.Request'}
+               'P2': 'PeerUserInfoReply.Request', 'P3': 'PeerDirectoryContentsReply.Request',
+               'S5': 'PrivateChatMessage.Response', 'P4': 'PeerTransferQueue.Request', 'P5': 'PeerUserInfoRequest.Request'}
 EXEC_KINDS = {
     'execute:GetUserStatusCommand': 'S1', 'execute:GetUserStatsCommand': 'S2', 'execute:GetPeerAddressCommand': 'S3',
     'execute:CheckPrivilegesCommand': 'S4', 'execute:PeerGetUserInfoCommand': 'P2',
@@ -152,6 +158,12 @@ def build_message(m: dict, uid: int, tickets: dict):
         if isinstance(t, dict):                      # {'req': i}: the ticket of request i's frame, if it has arrived
             t = tickets.get(t['req'], WRONG_TICKET)
         return M.PeerDirectoryContentsReply.Request(t, f['directory'], [])
+    if c == 'S5':
+        return M.PrivateChatMessage.Response(500 + uid, 1_700_000_000 + uid, f['username'], f['message'], True)
+    if c == 'P4':
+        return M.PeerTransferQueue.Request(f['filename'])
+    if c == 'P5':
+        return M.PeerUserInfoRequest.Request()
     raise ValueError(c)
 
 
@@ -666,13 +678,28 @@ def expand(params: dict) -> dict:
 # the reference model: one request against the observed event sequence
 
 def judge(r: dict, matchers: list, rec: dict, events: list) -> dict:
-    """Allowed outcomes of one request.  events: [{'t','src','ckey','msg'}] in MessageReceivedEvent order."""
-    t0 = rec['t_call']
+    """Allowed outcomes of one request.
+
+    events: [{'t','seq','t_done','seq_done','src','ckey','msg'}]: 't'/'seq' = instant / order number at which the
+    first MessageReceivedEvent listener saw the message, 't_done'/'seq_done' = when the last listener returned (the
+    library completes waiters right after it).  Order numbers come from one counter that is also read when the
+    harness task is about to make the call ('seq_call').
+
+    * registered(e): the call started before the message was seen (seq_call < e.seq) — every kind used here registers
+      its waiter synchronously at the call, before its first suspension, except request_place_in_queue which sends
+      first: there additionally e.t > t_call is required.
+    * alive(e): the request's end instant is strictly later than e.t_done.
+    * registered and alive  => the message MUST complete the request (if an earlier one has not).
+    * physically impossible (call started after e.seq_done, or ended before e.t) => must not.
+    * anything else => may (both outcomes accepted).
+    """
+    t0, q0 = rec['t_call'], rec['seq_call']
     end = r['end']
+    place = r['k'] == 'request_place_in_queue'
     deadline = None
     if end['type'] == 'T':
         deadline = t0 + end['ticks']
-    elif r['k'] == 'request_place_in_queue':
+    elif place:
         deadline = t0 + PLACE_TICKS              # the 15 s wait is not a parameter
     t_end = deadline if deadline is not None else float('inf')
     if end['type'] == 'C' and rec.get('t_cancel') is not None:
@@ -682,21 +709,32 @@ def judge(r: dict, matchers: list, rec: dict, events: list) -> dict:
         msg = e['msg']
         if why_rejected(r, matchers, e['src'], e['ckey'], lambda n, msg=msg: getattr(msg, n, _MISSING)) is None:
             matching.append(i)
-    at_call = [i for i in matching if events[i]['t'] == t0]
-    definite = [i for i in matching if t0 < events[i]['t'] < t_end]
-    at_end = [i for i in matching if events[i]['t'] == t_end and t_end != t0]
-    allowed = set(at_call)
-    if definite:
-        allowed.add(definite[0])
-        end_allowed = False
-    else:
-        end_allowed = True
-        if at_end:
-            allowed.add(at_end[0])
-    return {'t_end': t_end, 'deadline': deadline, 'matching': matching, 'allowed_values': sorted(allowed), 'end_allowed': end_allowed,
-            'first_definite': definite[0] if definite else None, 'same_instant': bool(at_end or at_call)}
+    matching.sort(key=lambda i: events[i]['seq_done'])        # the order in which waiters are completed
+    status = {}
+    for i in matching:
+        e = events[i]
+        registered = q0 < e['seq'] and (not place or e['t'] > t0)
+        if q0 > e['seq_done'] or t0 > e['t_done'] or t_end < e['t']:
+            status[i] = 'no'
+        elif registered and t_end > e['t_done']:
+            status[i] = 'must'
+        else:
+            status[i] = 'may'
+    allowed, first_must = [], None
+    for i in matching:
+        if status[i] == 'must':
+            allowed.append(i)
+            first_must = i
+            break
+        if status[i] == 'may':
+            allowed.append(i)
+    registered_at = {i: (q0 < events[i]['seq'] and (not place or events[i]['t'] > t0)) for i in matching}
+    return {'t_end': t_end, 'deadline': deadline, 'matching': matching, 'status': status, 'allowed_values': allowed,
+            'end_allowed': first_must is None, 'first_definite': first_must, 'registered_at': registered_at,
+            'same_instant': any(v == 'may' for v in status.values())}
 
 
+HOPS = {'a': 0, 'b': 1, 'c': 3}
 TIMEOUT_EXC = {k: 'TimeoutError' for k in ALL_KINDS}
 TIMEOUT_EXC['request_place_in_queue'] = 'RequestPlaceFailedError'
 
@@ -789,17 +827,54 @@ def run_case(params: dict) -> dict:
                 return 'server'
             return addr_src.get((conn.hostname, conn.port), 'unknown')
 
-        def on_msg(ev):
+        seq_counter = [0]
+
+        def next_seq() -> int:
+            seq_counter[0] += 1
+            return seq_counter[0]
+
+        by_event: dict[int, dict] = {}
+
+        def on_msg(ev):                       # first listener (priority 0): the message is seen
+            e = {
+                't': tick_now(), 'seq': next_seq(), 'src': source_of(ev.connection),
+                'ckey': key_of_cls.get(type(ev.message)), 'msg': ev.message, 'conn': ev.connection,
+                'log_mark': len(w.log.records), 't_done': None, 'seq_done': None, 'log_mark_done': None,
+                'stale_done': 0, 'stale_cancelled': 0, 'listed': 0,
+            }
+            by_event[id(ev)] = e
+            e['_ev'] = ev                     # keeps id() unique for the case
+            events.append(e)
+        h.listen(MessageReceivedEvent, on_msg)
+
+        lst = hist.get('listener') or None
+        lst_classes = set(lst['c']) if lst else set()
+        shared['listener_on'] = True
+
+        async def user_listener(ev):          # an application listener that really suspends (priority 500)
+            if not shared['listener_on'] or key_of_cls.get(type(ev.message)) not in lst_classes:
+                return
+            for _ in range(lst.get('yields', 0)):
+                await asyncio.sleep(0)
+            if lst.get('ticks', 0):
+                await asyncio.sleep(lst['ticks'] * TICK)
+        if lst:
+            h._listeners.append(user_listener)
+            client.events.register(MessageReceivedEvent, user_listener, priority=500)
+
+        def on_msg_done(ev):                  # last listener: the library completes the waiters right after it
+            e = by_event.get(id(ev))
+            if e is None:
+                return
             futs = list(net._expected_response_futures)
-            events.append({
-                't': tick_now(), 'src': source_of(ev.connection), 'ckey': key_of_cls.get(type(ev.message)),
-                'msg': ev.message, 'conn': ev.connection, 'log_mark': len(w.log.records),
-                'loop_mark': len(loop.exceptions),
+            e.update({
+                't_done': tick_now(), 'seq_done': next_seq(), 'log_mark_done': len(w.log.records),
                 'stale_done': sum(1 for f in futs if f.done() and not f.cancelled()),
                 'stale_cancelled': sum(1 for f in futs if f.cancelled()),
                 'listed': len(futs),
             })
-        h.listen(MessageReceivedEvent, on_msg)
+        h._listeners.append(on_msg_done)
+        client.events.register(MessageReceivedEvent, on_msg_done, priority=10 ** 6)
 
         # -- requests ---------------------------------------------------------------
         tickets: dict[int, int] = {}
@@ -812,7 +887,33 @@ def run_case(params: dict) -> dict:
             k = r['k']
             end = r['end']
             t_arg = end['ticks'] * TICK if end['type'] == 'T' else FAR * TICK
+            cmd = None
+            if k in EXEC_KINDS:
+                a = r['arg']
+                name = k.split(':')[1]
+                if name in ('GetUserStatusCommand', 'GetUserStatsCommand', 'GetPeerAddressCommand'):
+                    cmd = getattr(CMD, name)(a['username'])
+                elif name == 'CheckPrivilegesCommand':
+                    cmd = CMD.CheckPrivilegesCommand()
+                elif name == 'PeerGetUserInfoCommand':
+                    cmd = CMD.PeerGetUserInfoCommand(a['peer'])
+                else:
+                    cmd = CMD.PeerGetDirectoryContentCommand(a['peer'], a['directory'])
+                orig = cmd.handle_response
+
+                def capture(client_, response, orig=orig, rec=rec):
+                    rec['msg'] = response
+                    return orig(client_, response)
+                cmd.handle_response = capture
+                orig_build = cmd.build_expected_response
+
+                def build(client_, orig_build=orig_build, rec=rec):
+                    rec['lib_fut'] = orig_build(client_)      # looked at only to name the mechanism of a report
+                    return rec['lib_fut']
+                cmd.build_expected_response = build
+            # the call starts here: nothing below suspends before the library function is entered
             rec['t_call'] = tick_now()
+            rec['seq_call'] = next_seq()
             try:
                 if k == 'wait_for_server_message':
                     val = await net.wait_for_server_message(cls_of[r['c']], lib_fields(r), timeout=t_arg)
@@ -837,28 +938,6 @@ def run_case(params: dict) -> dict:
                         val = await fut
                     rec['conn'], rec['msg'] = val
                 elif k in EXEC_KINDS:
-                    a = r['arg']
-                    name = k.split(':')[1]
-                    if name in ('GetUserStatusCommand', 'GetUserStatsCommand', 'GetPeerAddressCommand'):
-                        cmd = getattr(CMD, name)(a['username'])
-                    elif name == 'CheckPrivilegesCommand':
-                        cmd = CMD.CheckPrivilegesCommand()
-                    elif name == 'PeerGetUserInfoCommand':
-                        cmd = CMD.PeerGetUserInfoCommand(a['peer'])
-                    else:
-                        cmd = CMD.PeerGetDirectoryContentCommand(a['peer'], a['directory'])
-                    orig = cmd.handle_response
-
-                    def capture(client_, response, orig=orig, rec=rec):
-                        rec['msg'] = response
-                        return orig(client_, response)
-                    cmd.handle_response = capture
-                    orig_build = cmd.build_expected_response
-
-                    def build(client_, orig_build=orig_build, rec=rec):
-                        rec['lib_fut'] = orig_build(client_)      # looked at only to name the mechanism of a report
-                        return rec['lib_fut']
-                    cmd.build_expected_response = build
                     val = await client.execute(cmd, response=True, timeout=t_arg)
                     rec['value'] = val
                 else:
@@ -875,12 +954,14 @@ def run_case(params: dict) -> dict:
                 ctx = exc.__context__
                 rec['exc_context'] = type(ctx).__name__ if ctx is not None else None
             rec['t_done'] = tick_now()
+            rec['seq_end'] = next_seq()
 
         def do_cancel(i: int):
             rec = recs[i]
             if 't_cancel' in rec:
                 return
             rec['t_cancel'] = tick_now()
+            rec['seq_cancel'] = next_seq()
             if 't_done' in rec:
                 rec['cancel_effective'] = False
                 return
@@ -896,6 +977,13 @@ def run_case(params: dict) -> dict:
             if r['end']['type'] == 'C' and 'seg' in r['end']:
                 hook_cancels[r['end']['seg']].append((i, r['end']['order']))
 
+        def hop(n: int, i: int):
+            # do_cancel(i) n loop iterations after this one (1 = the iteration in which the reader task resumes)
+            if n <= 1:
+                loop.call_soon(do_cancel, i)
+            else:
+                loop.call_soon(hop, n - 1, i)
+
         def on_deliver(transport, chunk):
             if transport.owner != 'me':
                 return
@@ -905,12 +993,11 @@ def run_case(params: dict) -> dict:
             j, _ = q.popleft()
             seg_info[j]['arrival'] = tick_now()
             for i, order in hook_cancels.get(j, ()):
-                if order == 'a':
-                    do_cancel(i)
-                elif order == 'b':
-                    loop.call_soon(do_cancel, i)
+                hops = HOPS[order] if order in HOPS else int(order)
+                if hops == 0:
+                    do_cancel(i)              # before the bytes reach the stream reader
                 else:
-                    loop.call_soon(lambda i=i: loop.call_soon(lambda: loop.call_soon(do_cancel, i)))
+                    hop(hops, i)
         w.net.on_deliver = on_deliver
 
         def send_segment(j: int):
@@ -935,20 +1022,25 @@ def run_case(params: dict) -> dict:
                 links[link].send_raw(data)
             seg_info[j]['sent'] = tick_now()
 
+        # actions: (tick, zero-time yields after the tick began, order, kind rank, what, index)
         actions = []
         for i, r in enumerate(reqs):
-            actions.append((r['s'], r.get('o', 0), 0, 'req', i))
+            actions.append((r['s'], r.get('y', 0), r.get('o', 0), 0, 'req', i))
             if r['end']['type'] == 'C' and 'tick' in r['end']:
-                actions.append((max(r['end']['tick'], r['s'] + 1), 3, 1, 'cancel', i))
+                actions.append((max(r['end']['tick'], r['s'] + 1), r['end'].get('y', 0), 3, 1, 'cancel', i))
         for j, s in enumerate(segs):
-            actions.append((s['t'], s.get('o', 1), 2, 'seg', j))
-        actions.sort(key=lambda a: (a[0], a[1], a[2], a[4]))
+            actions.append((s['t'], s.get('y', 0), s.get('o', 1), 2, 'seg', j))
+        actions.sort(key=lambda a: (a[0], a[1], a[2], a[3], a[5]))
         pos = 0
         while pos < len(actions):
             tick = actions[pos][0]
             await sleep_until(tick)
+            yielded = 0
             while pos < len(actions) and actions[pos][0] == tick:
-                _, _, _, what, x = actions[pos]
+                _, y, _, _, what, x = actions[pos]
+                while yielded < y:
+                    await asyncio.sleep(0)
+                    yielded += 1
                 if what == 'req':
                     recs[x]['task'] = w.spawn('me', run_request(x), name=f'c12-req-{x}')
                 elif what == 'seg':
@@ -964,6 +1056,8 @@ def run_case(params: dict) -> dict:
             horizon = max(horizon, r['s'] + e['ticks'] if e['type'] == 'T' else e.get('tick', arr[e['seg']] if 'seg' in e else 0))
         for a in arr:
             horizon = max(horizon, a)
+        if lst:
+            horizon += lst.get('ticks', 0) * (sum(len(s['msgs']) for s in segs) + 1)
         await sleep_until(horizon + 4)
         await settle(0.0)
         never = [i for i, rec in enumerate(recs) if 't_done' not in rec]
@@ -989,6 +1083,7 @@ def run_case(params: dict) -> dict:
             f.cancel()
         await settle(0.0)
         shared['n_history_events'] = len(events)
+        shared['listener_on'] = False
 
         # -- a later good request + reply still works -----------------------------------
         fresh = [
@@ -1027,6 +1122,10 @@ def run_case(params: dict) -> dict:
     # ---------------------------------------------------------------- evaluation
     runner.add_obs(res, 'histories')
     n_hist = shared['n_history_events']
+    for e in events:
+        e.pop('_ev', None)
+        if e['seq_done'] is None:                  # a listener raised / still suspended: no separate completion point
+            e['t_done'], e['seq_done'], e['log_mark_done'] = e['t'], e['seq'] + 0.5, e['log_mark']
     hevents = events[:n_hist]
     # harness consistency: every frame sent in the history was observed, per link in order, as the same message
     per_link = {k: list(v) for k, v in sent.items()}
@@ -1045,13 +1144,16 @@ def run_case(params: dict) -> dict:
 
     def ev_brief(i: int) -> dict:
         e = hevents[i]
-        return {'event': i, 't': e['t'], 'from': e['src'], 'uid': e['uid'], 'message': repr(e['msg'])[:140]}
+        return {'event': i, 't': e['t'], 'seq': e['seq'], 't_handlers_done': e['t_done'], 'seq_handlers_done': e['seq_done'],
+                'from': e['src'], 'uid': e['uid'], 'message': repr(e['msg'])[:140]}
 
     def witness(**extra) -> dict:
         d = {'history': {'lat_ticks': hist['lat'], 'requests': reqs, 'segments': segs, 'note': hist.get('note')},
              'tick_s': TICK,
              'events': [ev_brief(i) for i in range(len(hevents))],
-             'outcomes': [{k: v for k, v in rec.items() if k in ('i', 'k', 't_call', 't_done', 't_cancel', 'outcome',
+             'listener': hist.get('listener'),
+             'outcomes': [{k: v for k, v in rec.items() if k in ('i', 'k', 't_call', 'seq_call', 't_done', 'seq_end',
+                                                                   't_cancel', 'seq_cancel', 'outcome',
                                                                    'exc', 'exc_repr', 'exc_context', 'completed_by',
                                                                    'cancel_effective')} for rec in recs]}
         d.update(extra)
@@ -1071,13 +1173,32 @@ def run_case(params: dict) -> dict:
                     rec['completed_by'] = i
                     break
 
-    # callback errors, attributed to the event they follow
+    # the model's matchers per request
+    req_matchers = []
+    for i, r in enumerate(reqs):
+        ms = [list(m) for m in r['m']]
+        if r['k'] == 'execute:PeerGetDirectoryContentCommand':
+            # the ticket of the frame the peer received (harness observation at the end of the history)
+            ms[0] = ['ticket', 'eq', shared['tickets'].get(i, -1)]
+        req_matchers.append(ms)
+
+    def accepted(i: int, e: dict) -> bool:
+        msg = e['msg']
+        return why_rejected(reqs[i], req_matchers[i], e['src'], e['ckey'],
+                            lambda n, msg=msg: getattr(msg, n, _MISSING)) is None
+
+    # callback errors: the record is written right after the last listener of the event returned
+    points = sorted([(e['seq'], e['log_mark']) for e in events] + [(e['seq_done'], e['log_mark_done']) for e in events])
     cb_error: dict[int, str] = {}
     for i, e in enumerate(hevents):
-        hi = events[i + 1]['log_mark'] if i + 1 < len(events) else len(out.log_records)
-        for lr in out.log_records[e['log_mark']:hi]:
+        hi = next((m for q, m in points if q > e['seq_done']), len(out.log_records))
+        for lr in out.log_records[e['log_mark_done']:hi]:
             if lr['level'] == 'ERROR' and 'error during callback' in lr['msg']:
-                if e['stale_done'] and not e['stale_cancelled']:
+                ended_during = [x for x, rec in enumerate(recs) if accepted(x, e) and any(
+                    rec.get(q) is not None and e['seq'] < rec[q] < e['seq_done'] for q in ('seq_cancel', 'seq_end'))]
+                if ended_during:
+                    mech = 'waiter-ended-while-handlers-were-suspended'
+                elif e['stale_done'] and not e['stale_cancelled']:
                     mech = 'completed-waiter-not-yet-removed'
                 elif e['stale_cancelled'] and not e['stale_done']:
                     mech = 'cancelled-waiter-not-yet-removed'
@@ -1088,7 +1209,7 @@ def run_case(params: dict) -> dict:
                 cb_error[i] = mech
                 runner.add_obs(res, 'callback_errors_seen')
                 runner.violation(res, f"callback-error:{lr['exc_type']}:{mech}", witness=witness(
-                    at=ev_brief(i), log={k: lr[k] for k in ('msg', 'exc', 'tb')},
+                    at=ev_brief(i), log={k: lr[k] for k in ('msg', 'exc', 'tb')}, ended_during_the_handlers=ended_during,
                     listed_waiters=e['listed'], already_completed=e['stale_done'], already_cancelled=e['stale_cancelled']))
     late_cb = [lr for lr in out.log_records[(events[n_hist]['log_mark'] if n_hist < len(events) else len(out.log_records)):]
                if lr['level'] == 'ERROR' and 'error during callback' in lr['msg']]
@@ -1102,10 +1223,7 @@ def run_case(params: dict) -> dict:
         k = r['k']
         if 't_call' not in rec:
             continue                     # cancelled before its first step: not a request
-        matchers = [list(m) for m in r['m']]
-        if k == 'execute:PeerGetDirectoryContentCommand':
-            # the ticket of the frame the peer received (harness observation at the end of the history)
-            matchers[0] = ['ticket', 'eq', shared['tickets'].get(i, -1)]
+        matchers = req_matchers[i]
         if r['end']['type'] == 'C' and 't_cancel' not in rec:
             res['inconclusive'] = f'the cancellation of request {i} was never issued (generator/harness)'
             continue
@@ -1121,7 +1239,16 @@ def run_case(params: dict) -> dict:
             tc = 'none' if ft is None else ('before' if j['t_end'] < ft else 'at' if j['t_end'] == ft else 'after')
         timing_classes.append(f"{r['end']['type']}{r['end'].get('order', '')}:{tc}")
         if 'order' in r['end']:
-            runner.add_obs(res, f"cancel_at_arrival_order_{r['end']['order']}")
+            if r['end']['order'] in HOPS:
+                runner.add_obs(res, f"cancel_at_arrival_order_{r['end']['order']}")
+            else:
+                runner.add_obs(res, 'cancel_at_arrival_plus_hops')
+        for x in j['matching']:
+            e = hevents[x]
+            if e['t'] == rec['t_call'] and j['status'][x] == 'must':
+                runner.add_obs(res, 'judged_by_order_at_the_call_instant')
+            if any(rec.get(q) is not None and e['seq'] < rec[q] < e['seq_done'] for q in ('seq_cancel', 'seq_end')):
+                runner.add_obs(res, 'requests_ended_while_handlers_suspended')
         if j['deadline'] is not None and j['deadline'] == j['t_end']:
             hits = [x for x in j['matching'] if hevents[x]['t'] == j['deadline']]
             if hits:
@@ -1144,6 +1271,8 @@ def run_case(params: dict) -> dict:
                 mech = 'after-callback-error'
             elif any(v is None for v in lib_fields.values()):
                 mech = 'expected-value-unset-when-the-matcher-was-built'
+            elif hevents[expected]['t'] == rec['t_call']:
+                mech = 'processed-at-the-call-instant-after-the-call-started'
             elif any(o.get('completed_by') == expected for o in recs):
                 mech = 'other-waiter-completed'
             else:
@@ -1156,21 +1285,24 @@ def run_case(params: dict) -> dict:
             if cb is None:
                 runner.violation(res, 'completed-by-wrong-message:unknown-object', witness=witness(request=i))
                 continue
-            if cb not in j['allowed_values']:
-                e = hevents[cb]
+            e = hevents[cb]
+            if cb not in j['matching']:
                 msg = e['msg']
                 why = why_rejected(r, matchers, e['src'], e['ckey'], lambda n, msg=msg: getattr(msg, n, _MISSING))
-                if why is not None:
-                    runner.violation(res, f'completed-by-wrong-message:{why}', witness=witness(
-                        request=i, completed_by=ev_brief(cb), model=rec['model']))
-                elif e['t'] < rec['t_call'] or e['t'] > j['t_end']:
-                    runner.violation(res, 'completed-outside-window', witness=witness(
-                        request=i, completed_by=ev_brief(cb), model=rec['model']))
-                elif any(x in cb_error for x in j['matching'] if x < cb and hevents[x]['t'] >= rec['t_call']):
-                    ignored(next(x for x in j['matching'] if x < cb and hevents[x]['t'] >= rec['t_call'] and x in cb_error))
-                else:
+                runner.violation(res, f'completed-by-wrong-message:{why}', witness=witness(
+                    request=i, completed_by=ev_brief(cb), model=rec['model']))
+            elif j['status'][cb] == 'no':
+                runner.violation(res, 'completed-outside-window', witness=witness(
+                    request=i, completed_by=ev_brief(cb), model=rec['model']))
+            else:
+                # the request was evidently still pending when event cb was completed: an earlier matching message
+                # that was seen after the call started should have completed it
+                earlier = [x for x in j['matching'][:j['matching'].index(cb)] if j['registered_at'][x]]
+                if any(x in cb_error for x in earlier):
+                    ignored(next(x for x in earlier if x in cb_error))
+                elif earlier:
                     runner.violation(res, 'not-first-matching-message', witness=witness(
-                        request=i, completed_by=ev_brief(cb), model=rec['model']))
+                        request=i, completed_by=ev_brief(cb), earlier=[ev_brief(x) for x in earlier], model=rec['model']))
             # the value handed to the caller is the one the message carries
             msg = hevents[cb]['msg']
             bad = None
